@@ -115,6 +115,63 @@ R = ref.reference_mesh(d, g, (2, 3), 'pad', 100, None, 'Mean', 'Std')
 if R['clip_margin'] != np.inf or R['branch_margin'] != np.inf:
     fails.append('margins must be inf without clipping / without a branching estimator')
 
+# degenerate-statistic boxes: enumeration, image layout, classes, and the estimators on every multiset against
+# astropy.stats' scalar (axis=None) functions (not the photutils copy under test)
+from math import comb  # noqa: E402
+
+for letters, npb in (((0, 1, 7), 9), ((0, 2, 5, 7), 9), ((0, 1), 4)):
+    boxes = ref.multiset_boxes(letters, npb)
+    if len(boxes) != comb(npb + len(letters), len(letters)) or len(set(boxes)) != len(boxes):
+        fails.append(f'multiset_boxes{letters}: {len(boxes)} boxes')
+    if any(tuple(sorted(b)) != b or len(b) > npb or set(b) - set(letters) for b in boxes) or boxes[0] != ():
+        fails.append(f'multiset_boxes{letters}: not ascending tuples over the letters')
+boxes = ref.multiset_boxes((0, 1, 7), 9)
+img, msk, boxes2, (my, mx) = ref.multiset_image((0, 1, 7), (3, 3), 5.25, 1.5, -100.0)
+if boxes2 != boxes or my * mx != 220 or img.shape != (3 * my, 3 * mx) or msk.shape != img.shape:
+    fails.append('multiset_image layout')
+for b, ms in enumerate(boxes):
+    j, i = divmod(b, mx)
+    blk, bm = img[3 * j:3 * j + 3, 3 * i:3 * i + 3], msk[3 * j:3 * j + 3, 3 * i:3 * i + 3]
+    if sorted(blk[~bm].tolist()) != [5.25 + 1.5 * x for x in ms] or not np.all(blk[bm] == -100.0):
+        fails.append(f'multiset_image box {b} {ms}')
+        break
+classes = {}
+for ms in boxes[1:]:
+    v = np.array(ms, float)
+    cls = ref.box_class(v)
+    classes[cls] = classes.get(cls, 0) + 1
+    want_cls = ('constant' if np.ptp(v) == 0 else
+                'MAD==0,ptp>0' if np.median(np.abs(v - np.median(v))) == 0 else 'MAD>0')
+    if cls != want_cls:
+        fails.append(f'box_class{ms} = {cls}')
+    close(ref.est_biweight_location(v), float(ast.biweight_location(v, c=6.0)), f'biloc {ms}')
+    close(ref.est_biweight_scale(v), float(ast.biweight_scale(v, c=9.0)), f'biscale {ms}')
+    close(ref.est_madstd(v), float(ast.mad_std(v)), f'madstd {ms}')
+    close(ref.est_std(v), float(np.std(v)), f'std {ms}')
+    md, mn, sd = np.median(v), np.mean(v), np.std(v)
+    close(ref.est_sextractor(v), float(mn if sd == 0 else (md if abs(mn - md) / sd >= 0.3 else 2.5 * md - 1.5 * mn)),
+          f'sextractor {ms}')
+    for sigma, it in ((3.0, 10), (2.0, 3)):
+        got = np.sort(ref.sigma_clip(v, sigma, it))
+        exp = np.sort(np.ma.compressed(ast.sigma_clip(v, sigma=sigma, maxiters=it, cenfunc='median', stdfunc='std')))
+        if not np.array_equal(got, exp):
+            fails.append(f'sigma_clip {ms} sigma={sigma}: {got.tolist()} vs {exp.tolist()}')
+if ref.box_class([]) != 'empty' or set(classes) != {'constant', 'MAD==0,ptp>0', 'MAD>0'} or classes['constant'] != 27:
+    fails.append(f'box classes {classes}')
+info = {}
+ref.sigma_clip(np.array([3.25, 3.25, 3.25]), 3.0, 10, info)
+if 'margin' in info:
+    fails.append('equal values must not contribute a clip margin (kept at any offset / scale)')
+info = {}
+ref.sigma_clip(np.array([0.0, 1, 1, 1, 1, 1, 1, 1, 5]), 3.0, 10, info)       # 5 == median + 3 std exactly
+if not info['margin'] < 1e-12:
+    fails.append(f'exact clipping tie must give margin 0, got {info["margin"]!r}')
+g3 = ~msk
+R = ref.reference_mesh(img, g3, (3, 3), 'pad', 90, (3.0, 10), 'SExtractor', 'Std', classify=True)
+if not (R['clip_margin'] > 1e-3 * 1.5 and R['branch_margin'] > 1e-3 * 1.5 and R['cls'][0, 0] == 'empty'
+        and not R['incl'][0, 0] and R['incl'].sum() == 219):
+    fails.append(f'multiset image margins {R["clip_margin"]!r} {R["branch_margin"]!r}')
+
 # median filter against scipy's generic_filter with NaN padding (ignoring NaN)
 for shape in [(1, 1), (2, 2), (3, 4), (4, 3), (1, 5)]:
     m = rng.normal(0, 1, shape)
